@@ -61,7 +61,7 @@ CHECKS = {
  'C13': ('fault_enumeration', 'SIGKILL/SIGTERM of the saving process at every executed line of the save path and every write-call boundary / mid-write split (flushed or not); verdict by a process that never ran the save; file-system signature classifier',
          'For every enumerated kill point the verdict (not reported | loads old/new | poisoned) is computed; poisoned outcomes whose post-kill signature shows an incomplete entry are the open known finding (labtech has no commit protocol); any other bad outcome is a violation.',
          'Line / write-call granularity; a forked copy of the harness stands in for the serial caller (fresh interpreter on a sample).', '4 C13'),
- 'C14': ('fault_enumeration', 'interrupt arriving at the k-th labtech line of the calling thread (sys.monitoring LINE failpoint) and delivered as KeyboardInterrupt at the next eval-breaker-equivalent event (function entry, loop back-edge, return from C), second interrupt k2 lines later incl. sweeps over the first interrupt\'s handler, real process-group SIGINT at gate-controlled rest points / at launch; oracles O1-O4 over exception type, launch ledger, event log, cache post-state; SIGALRM hang watchdog',
+ 'C14': ('fault_enumeration', 'interrupt arriving at the k-th labtech line of the calling thread (sys.monitoring LINE failpoint) and delivered as KeyboardInterrupt at the next eval-breaker-equivalent event (function entry, loop back-edge, return from C), every line of labtech/cache.py (the save window) always enumerated, second interrupt k2 lines later incl. sweeps over the first interrupt\'s handler, real process-group SIGINT at gate-controlled rest points / at launch; oracles O1-O4 over exception type, launch ledger, event log, cache post-state; SIGALRM hang watchdog',
          'Held for every delivered interrupt: KeyboardInterrupt raised, nothing started afterwards, workers launched before a single interrupt finished and were cached, cache consistent; after a second interrupt workers dead and at most one epilogue wait().',
          'Line granularity in the calling thread; real signals only at controlled points.', '4 C14'),
  'C17': ('exploration', 'holders-model oracle over remove_results calls + probes of the real runner after each release, at each submit and at close()',
